@@ -479,7 +479,24 @@ def _worker(job):
 _CFG = "SPECIFICATION Spec\nCHECK_DEADLOCK FALSE\nINVARIANT TypeOK\n"
 
 
-def validate_documents(ctx, docs, stage, batch_bytes=3_000_000, batch_docs=2500, workers=6, parallel=3, count=True):
+def _parse_printed(txt):
+    """tlaval.parse with backslashes kept intact (RTLIL identifiers start with one; tlaval unescapes "\\t" twice)."""
+    def back(v):
+        if isinstance(v, str):
+            return type(v)(v.replace("\x01", "\\")) if "\x01" in v else v
+        if isinstance(v, tuple):
+            return tuple(back(x) for x in v)
+        if isinstance(v, list):
+            return [back(x) for x in v]
+        if isinstance(v, frozenset):
+            return frozenset(back(x) for x in v)
+        if isinstance(v, dict):
+            return {back(k): back(x) for k, x in v.items()}
+        return v
+    return back(tlaval.parse(txt.replace("\\\\", "\x01")))
+
+
+def validate_documents(ctx, docs, stage, batch_bytes=1_500_000, batch_docs=800, workers=4, parallel=4, count=True):
     """docs: list of rtlil_parse.wf_document results (dicts, or their JSON text).  Returns verdicts aligned with docs:
     ("ACC", n_modules, n_bits, n_cells) or ("REJ", module, clause, detail).  Batches are judged by concurrent TLC runs.
     Reusable (C04)."""
@@ -513,7 +530,7 @@ def validate_documents(ctx, docs, stage, batch_bytes=3_000_000, batch_docs=2500,
             head = re.sub(r"\s+", "", txt[:12])
             if not (head.startswith('<<"ACC"') or head.startswith('<<"REJ"')):
                 continue
-            v = tlaval.parse(txt)
+            v = _parse_printed(txt)
             i = idx[v[1] - 1]
             if v[0] == "ACC":
                 got[i] = ("ACC",) + tuple(v[2:])
@@ -563,7 +580,8 @@ def _judge(ctx, entries, stage):
             ctx.violation(key, "the RTLIL reader refuses the text emitted for %s: %s" % (json.dumps(d), res[1]),
                           replay={"source": source, "design": d, "text": res[2]})
     for (err, where), lst in sorted(raises.items()):
-        lst.sort(key=lambda x: (len(x[1].get("sigs", ())) + len(x[1].get("extras", ())), len(json.dumps(x[1]))))
+        lst.sort(key=lambda x: (0 if "sigs" in x[1] else 1, len(x[1].get("sigs", ())) + len(x[1].get("extras", ())),
+                                len(json.dumps(x[1]))))
         by_src = {}
         for source, _d, _r in lst:
             by_src[source] = by_src.get(source, 0) + 1
@@ -577,19 +595,24 @@ def _judge(ctx, entries, stage):
                                "shown): %s" % (err, res[3], where, len(lst), by_src, json.dumps(d)),
                           replay={"source": source, "design": d})
     verdicts = validate_documents(ctx, docs, stage)
-    n_rej = 0
+    rejected = {}
     for (source, d), v in zip(owners, verdicts):
         nontrivial = v[0] == "REJ" or v[2] > 0
         ctx.case((source, json.dumps(d, sort_keys=True)), nontrivial=nontrivial)
         if v[0] == "REJ":
-            n_rej += 1
-            if n_rej > 12:
-                continue
-            key = {"clause": v[2], "detail": _detail_code(v[3]), "module": v[1], "source": source, "design": _short(d)}
-            ctx.violation(key, "RtlilWF rejects the document emitted for %s: module %s breaks %s: %s" % (
-                json.dumps(d), v[1], v[2], tlaval_text(v[3])), replay={"source": source, "design": d})
-    if n_rej > 12:
-        ctx.notes.append("%s: %d documents rejected in total, 12 reported" % (stage, n_rej))
+            rejected.setdefault((v[2], _detail_code(v[3])), []).append((source, d, v))
+    for (clause, code), lst in sorted(rejected.items()):
+        lst.sort(key=lambda x: (0 if "sigs" in x[1] else 1, len(x[1].get("sigs", ())) + len(x[1].get("extras", ())),
+                                len(json.dumps(x[1]))))
+        by_src = {}
+        for source, _d, _v in lst:
+            by_src[source] = by_src.get(source, 0) + 1
+        ctx.cov.setdefault("rejected", {})["%s/%s" % (clause, code)] = by_src
+        for source, d, v in lst[:3]:
+            key = {"clause": clause, "detail": code, "module": v[1], "source": source, "design": _short(d)}
+            ctx.violation(key, "RtlilWF rejects the document emitted for %s: module %s breaks %s: %s  (%d such documents in this "
+                               "run: %s; smallest shown)" % (json.dumps(d), v[1], clause, tlaval_text(v[3]), len(lst), by_src),
+                          replay={"source": source, "design": d})
     return docs, owners, verdicts
 
 
@@ -611,7 +634,6 @@ BAD_TEXTS = [
     ("unknown keyword", "module \\m\n  wires width 1 \\a\nend\n"),
     ("slice glued to id", "module \\m\n  wire width 2 \\a\n  wire width 2 \\b\n  connect \\a\\b\nend\n"),
     ("bad digit", "module \\m\n  wire width 2 \\a\n  connect \\a 2'12\nend\n"),
-    ("too many digits", "module \\m\n  wire width 2 \\a\n  connect \\a 2'101\nend\n"),
     ("wire option twice", "module \\m\n  wire width 2 width 3 \\a\nend\n"),
     ("negative width", "module \\m\n  wire width -2 \\a\nend\n"),
     ("statement outside module", "wire width 1 \\a\n"),
